@@ -25,8 +25,8 @@ CHECKS.update({
             "RequantIdempotent on every lattice point (all int8 quarter steps, every float8 grid point / midpoint / neighbour / beyond-range "
             "point) and emits each case; all cases are executed on quantize_activation / SymmetricQuantizer (3 dtypes, per-tensor and "
             "per-axis, strided) and TLC validates the recorded codes and dequantized values with zero tolerance. Wide domain: the "
-            "float16/bfloat16 value space (1/16 stratified in quick, complete in thorough), boundary-directed float32 values and per-axis "
-            "scales are validated by Trace_QNum in exact integer arithmetic with the derived rounding tolerance (DESIGN 7.1).",
+            "float16/bfloat16 value space (1/32 stratified in quick, complete in thorough), boundary-directed float32 values, per-axis "
+            "scales, quanto's qfloat8 alias and every symmetric-quantizer call made by the repository's own tests (recorded by a pytest plugin) are validated by Trace_QNum in exact integer arithmetic with the derived rounding tolerance (DESIGN 7.1).",
             "Trusted: TLC, Python integer/Fraction conversion of bit patterns (harness/exact.py). Tolerance 4u*max(|x|,|s*v|,s)+eta(1+s); "
             "elements whose grid point overflows the working dtype are excluded and counted.",
             "DESIGN.md 3.2, 5/C01, 7.1"),
@@ -44,7 +44,7 @@ CHECKS.update({
             "TLC model check of the reduction-dimension formulas and locality + trace validation of optimizer calls and metamorphic pairs",
             "QRange.tla transcribes the reduction dims of AbsmaxOptimizer, MaxOptimizer, absmax_scale/axis_to_dim and quantize_weight's size-1 rule; "
             "TLC checks OneEntryPerIndex, NonSaturating, FullRange and the two-state Locality property, and emits tensors with distinct per-index ranges "
-            "that are fed to the real optimizers; every optimizer call and every metamorphic pair (others replaced / scaled / rows permuted) is "
+            "that are fed to the real optimizers together with class-directed random tensors (noise, one-sided, offset, constant, zero, tiny, huge, any binade, underflowing); every optimizer call and every metamorphic pair (others replaced / scaled / rows permuted) is "
             "validated by TLC in exact arithmetic.",
             "qmax readings per DESIGN 5/C03 (storage maximum for non-saturation, 2^(bits-1)-1 for full range). Scale entries are matched to rows/groups in the "
             "order the specification's grouping map defines.",
@@ -70,17 +70,19 @@ CHECKS.update({
             "TLC model check of the dispatch tables + execution of TLC-generated operation programs on real tensors + TLC trace validation of every step",
             "TensorOps.tla transcribes both aten dispatch tables and the function table at the level stays-quantized / falls-back / raises with the re-wrapped "
             "metadata; TLC checks WellFormed and NoSpuriousRaise over all programs to depth 3-4, shows that each recorded deviation violates them, and generates all "
-            "programs of depth 1-2 plus simulated programs of depth up to 7 (40 operations x operand kinds: per-tensor / per-axis int8 and float8, packed int2/int4, plain, "
-            "equal / different scales, other qtype, three inputs). Each program runs on real quantized tensors and, step by step, on the dequantized operands; TLC validates "
-            "every step: no spurious raise, and value equivalence in exact arithmetic by operation class (exact / float rounding / one step of the output grid).",
-            "Deq(result) is quanto's dequantize() (verified by C01/C02). Tolerances per DESIGN 7.2. mm/bmm/linear belong to C07. After a step admitted only as a listed known "
+            "programs of depth 1-2 plus simulated programs of depth up to 7 (about 55 operations - views, slicing, cat/stack/split, scalar and tensor arithmetic, "
+            "dtype and device moves, state_dict round trip, matmul / bmm / linear against plain, alike and differently quantized second operands, pass-through functions with and without "
+            "keyword arguments - x operand kinds: per-tensor / per-axis int8 and float8, packed int2/int4 with and without groups, plain, equal / different scales, other qtype, three inputs, "
+            "an operand derived from the working tensor). Each program runs on real quantized tensors and, step by step, on the dequantized operands; TLC validates "
+            "every step: no spurious raise, and value equivalence in exact arithmetic by operation class (exact / float rounding / one step of the output grid / one accumulation for contractions).",
+            "Deq(result) is quanto's dequantize() (verified by C01/C02). Tolerances per DESIGN 7.2. The kernel routes of mm/bmm/linear are decided by C07; here they appear as steps of programs. After a step admitted only as a listed known "
             "finding the rest of that program is skipped.",
             "DESIGN.md 3.5, 5/C05, 7.2, Appendix B"),
     "C06": ("TensorOps.tla, Trace_TensorOps.tla",
             "TLC model check of the re-wrapping metadata + TLC trace validation of the projection of every tensor produced by executed programs",
             "Same programs as C05; the verdict clauses are WellFormed (reported shape/dtype = those of the dequantized value and of the float twin, one code per element, "
             "scale laid out along the declared axis, storage type = payload dtype) evaluated after every step, MovesKeepCodes and DtypeMoveOnlyScale (codes, qtype, axis "
-            "unchanged by clone/detach/contiguous/to; only the scale changes dtype). Tensors produced by freeze and deserialisation are projected with the same predicate in C09/C10.",
+            "unchanged by clone/detach/contiguous/to/device move/state_dict round trip; only the scale changes dtype; packed tensors keep group size, packed rows, scale and zero-point layout). Tensors produced by freeze and deserialisation are projected with the same predicate in C09/C10.",
             "Strides are recorded, not judged. Grouped scale layouts of packed tensors are judged by C02/C03.",
             "DESIGN.md 3.5, 5/C06"),
     "C07": ("MatMul.tla, Trace_MatMul.tla, Exact.tla",
@@ -102,9 +104,10 @@ CHECKS.update({
             "DESIGN.md 3.7, 5/C08"),
     "C09": ("Lifecycle.tla, Trace_Lifecycle.tla",
             "TLC model check (FreezePreservesDenotation, FrozenNeverStale) + executed histories + TLC trace validation of output digests and payload sizes",
-            "Histories interleaving forward / calibrate / freeze / freeze-again / deepcopy for all weight and activation qtypes; bit-identical output digests before/after freeze and deepcopy, "
+            "Histories interleaving forward / calibrate / freeze / freeze-again / to(device) / deepcopy for all weight and activation qtypes; bit-identical output digests before/after freeze, model.to(device) and deepcopy "
+            "(the move goes through torch's _apply machinery on frozen QTensor parameters and must leave every module's state unchanged), "
             "FreezeIdempotent, biases / scales untouched, and the payload of every frozen weight: ceil(rows x bits / 8) x (numel / rows) bytes, one scale (and zero-point) per output index or group.",
-            "Device moves are CPU only. Digests are SHA-256 of the raw bytes of outputs / payloads.",
+            "Only the CPU exists here: the device move is to the device the model is on (still the full _apply path). Digests are SHA-256 of the raw bytes of outputs / payloads.",
             "DESIGN.md 3.7, 5/C09"),
     "C10": ("Lifecycle.tla, Trace_Lifecycle.tla",
             "TLC model check (RoundTripDenotation) + executed save/load histories + TLC trace validation",
@@ -121,7 +124,7 @@ CHECKS.update({
     "C12": ("Lifecycle.tla, Trace_Lifecycle.tla, Exact.tla",
             "TLC model check (EmaLawStep with symbolic folds) + executed calibration histories + TLC trace validation of every scale update in exact arithmetic",
             "Every update of every input / output scale is logged with the batch's own absmax/qmax (observed with module-level hooks installed by the harness) and validated by TLC against "
-            "s' = m*s + (1-m)*new with the momentum of the open context (first update initialises), AdoptQuantizedInputScale and NoSaturationAfterOneBatch; sequential contexts, streamline on/off, raising forwards.",
+            "s' = m*s + (1-m)*new with the momentum of the open context (first update initialises), AdoptQuantizedInputScale and NoSaturationAfterOneBatch; sequential contexts, the same context object re-entered, momenta 0 / 0.25 / 0.5 / 0.9, qint8 / e4m3 / e5m2 activations, streamline on/off, raising forwards.",
             "Tolerance 6u per update. Under nested contexts both contexts update (modelled, not asserted). scale == 1.0 treated as uninitialised is a known finding.",
             "DESIGN.md 3.7, 5/C12"),
     "C13": ("Lifecycle.tla, CalibScope.tla, Trace_Lifecycle.tla",
